@@ -8,6 +8,7 @@ statements here hold for an arbitrary pair list.
 -/
 import EvoModel.Lemmas.Metrics
 import EvoModel.Lemmas.MetricsReal
+import EvoModel.Lemmas.Pipeline
 namespace Evo.C02
 open Evo
 
@@ -246,6 +247,96 @@ theorem rpePlan_project_after_align (o : RpeOpts) (steps l₁ l₂ : List Step) 
   · have := rank_lt_of_split hs e hm; simp [Step.rank] at this
   · have := rank_lt_of_split hs e hm; simp [Step.rank] at this
 
+/-! ### evo_rpe end to end inside the model (`Model/Pipeline.lean`)
+
+As `apeRun` (see `Props/C01.lean`) up to the processed trajectories; then the pairs are chosen by C10's
+`Pairs.idPairsFromDelta` on the processed reference or estimate.  Additional parameters: the step
+lengths and relative rotation angles that the pair selection compares (`Params.pairs`, C10 conventions). -/
+
+open Pipeline in
+/-- **evo_rpe stores `rpeCore` of the pairs chosen on the processed trajectories.**  If `rpeRun` returns
+`res`: `sel` are the remaining input poses (with stamps and input indices), `g` the processed
+trajectories (pose by pose as for APE), `pairs` is `idPairsFromDelta` (C10) on the processed driving
+trajectory, `(res.values, res.deltaIds)` is `rpe` of the model on them: `delta_ids` are the ends `j` of
+the surviving pairs in order, one value per surviving pair; `refPairIds` / `estPairIds` name the input
+poses of each pair and `stamps` are the estimate stamps at the pair ends. -/
+theorem rpeRun_values_are_rpeCore_of_selected_pairs {o : RpeOpts} {P : Params} {ref est : Traj}
+    {res : RpeRunResult} (h : rpeRun o P ref est = .ok res) :
+    ∃ (sel : List TPose × List TPose) (g : List (Pose Rat) × List (Pose Rat)) (pairs : List (Nat × Nat)),
+      selectPairs o.common P ref est = .ok sel ∧
+      (∀ x ∈ sel.1, ref.stamps[x.2.2]? = some x.1 ∧ ref.poses[x.2.2]? = some x.2.1) ∧
+      (∀ x ∈ sel.2, est.stamps[x.2.2]? = some x.1 ∧ est.poses[x.2.2]? = some x.2.1) ∧
+      g.1 = projAll o.common.plane P.dirsRef (posesOf sel.1) ∧
+      g.2 = projAll o.common.plane P.dirsEst (((posesOf sel.2).map (alignPose o.common P)).map
+              (Pose.mul (originT o.common (posesOf sel.1) ((posesOf sel.2).map (alignPose o.common P))))) ∧
+      g.1.length = sel.1.length ∧ g.2.length = sel.2.length ∧ sel.1.length = sel.2.length ∧
+      Pairs.idPairsFromDelta
+        ⟨(if o.pairsFromReference then g.1.length else g.2.length), P.pairs.steps, P.pairs.cang,
+         triAng (if o.pairsFromReference then g.1.length else g.2.length) P.pairs.tri, P.pi⟩
+        o.delta (dunitOf o.deltaUnit) o.deltaTol o.allPairs = .ok pairs ∧
+      rpe o.common.rel pairs g.1 g.2 = .ok ⟨res.values, res.deltaIds⟩ ∧
+      res.deltaIds = (keptPairs o.common.rel g.1 pairs).map Prod.snd ∧
+      res.values.length = res.deltaIds.length ∧
+      res.refPairIds = (keptPairs o.common.rel g.1 pairs).map (pickPair (idsOf sel.1)) ∧
+      res.estPairIds = (keptPairs o.common.rel g.1 pairs).map (pickPair (idsOf sel.2)) ∧
+      res.stamps = reduceIds (stampsOf sel.2) res.deltaIds := by
+  unfold rpeRun at h
+  obtain ⟨sel, hsel, h⟩ := (bind_ok_iff _ _ _).mp h
+  obtain ⟨g, hg, h⟩ := (bind_ok_iff _ _ _).mp h
+  obtain ⟨pairs, hp, h⟩ := (bind_ok_iff _ _ _).mp h
+  obtain ⟨r, hr, h⟩ := (bind_ok_iff _ _ _).mp h
+  obtain ⟨u, _, h⟩ := (bind_ok_iff _ _ _).mp h
+  injection h with h; subst h
+  obtain ⟨m1, m2⟩ := selectPairs_mem hsel
+  obtain ⟨g1, g2, l1, l2⟩ := geometry_ok hg
+  obtain ⟨_, hl, hid⟩ := selectIdPairs_ok hp
+  have hr' := liftMetric_ok.mp hr
+  have e1 : g.1.length = sel.1.length := by rw [l1]; simp [posesOf]
+  have e2 : g.2.length = sel.2.length := by rw [l2]; simp [posesOf]
+  refine ⟨sel, g, pairs, hsel, fun x hx => mem_tagTraj (m1 x hx), fun x hx => mem_tagTraj (m2 x hx), g1, g2, e1, e2,
+    by rw [← e1, ← e2, hl], hid, hr', (rpe_delta_ids_are_pair_ends hr').1, (rpe_length_eq_delta_ids hr').1, rfl, rfl, rfl⟩
+
+open Pipeline in
+/-- **which refusals propagate**: `rpeRun` fails exactly with the error of the first failing phase
+(selection → geometry → pair selection incl. the `RPE.__init__` checks → metric → unit change) -/
+theorem rpeRun_refusals (o : RpeOpts) (P : Params) (ref est : Traj) (e : RunErr) :
+    rpeRun o P ref est = .error e ↔
+      selectPairs o.common P ref est = .error e ∨
+      ∃ sel, selectPairs o.common P ref est = .ok sel ∧
+        (geometry o.common P (posesOf sel.1) (posesOf sel.2) = .error e ∨
+         ∃ g, geometry o.common P (posesOf sel.1) (posesOf sel.2) = .ok g ∧
+           (selectIdPairs o P g.1 g.2 = .error e ∨
+            ∃ pairs, selectIdPairs o P g.1 g.2 = .ok pairs ∧
+              (liftMetric (rpe o.common.rel pairs g.1 g.2) = .error e ∨
+               ∃ r, liftMetric (rpe o.common.rel pairs g.1 g.2) = .ok r ∧
+                 unitStep o.common.rel o.common.changeUnit = .error e))) := by
+  unfold rpeRun
+  simp only [bind_error_iff]
+  constructor
+  · rintro (h | ⟨sel, hs, h | ⟨g, hg, h | ⟨ps, hp, h | ⟨r, hr, h | ⟨u, _, h⟩⟩⟩⟩⟩)
+    · exact Or.inl h
+    · exact Or.inr ⟨sel, hs, Or.inl h⟩
+    · exact Or.inr ⟨sel, hs, Or.inr ⟨g, hg, Or.inl h⟩⟩
+    · exact Or.inr ⟨sel, hs, Or.inr ⟨g, hg, Or.inr ⟨ps, hp, Or.inl h⟩⟩⟩
+    · exact Or.inr ⟨sel, hs, Or.inr ⟨g, hg, Or.inr ⟨ps, hp, Or.inr ⟨r, hr, h⟩⟩⟩⟩
+    · cases h
+  · rintro (h | ⟨sel, hs, h | ⟨g, hg, h | ⟨ps, hp, h | ⟨r, hr, h⟩⟩⟩⟩)
+    · exact Or.inl h
+    · exact Or.inr ⟨sel, hs, Or.inl h⟩
+    · exact Or.inr ⟨sel, hs, Or.inr ⟨g, hg, Or.inl h⟩⟩
+    · exact Or.inr ⟨sel, hs, Or.inr ⟨g, hg, Or.inr ⟨ps, hp, Or.inl h⟩⟩⟩
+    · exact Or.inr ⟨sel, hs, Or.inr ⟨g, hg, Or.inr ⟨ps, hp, Or.inr ⟨r, hr, Or.inl h⟩⟩⟩⟩
+
+open Pipeline in
+/-- an empty pair selection (C10: `FilterException`), a negative or non-integral frame delta, and unequal
+numbers of remaining poses (`MetricsException`) are refused before any value is computed -/
+theorem rpeRun_pair_selection_refusals (o : RpeOpts) (P : Params) (gr ge : List (Pose Rat)) :
+    (rpeCtorOk o.delta o.deltaUnit = false → selectIdPairs o P gr ge = .error .metrics) ∧
+    (rpeCtorOk o.delta o.deltaUnit = true → gr.length ≠ ge.length → selectIdPairs o P gr ge = .error .metrics) := by
+  constructor
+  · intro h; unfold selectIdPairs; simp [h]
+  · intro h hl; unfold selectIdPairs; simp [h, hl]
+
 /-! ### non-vacuity -/
 
 def rz : M3 Rat := ⟨0, -1, 0, 1, 0, 0, 0, 0, 1⟩
@@ -274,5 +365,17 @@ def optsR : RpeOpts :=
   ⟨⟨true, none, none, none, some 0, 1/100, 1/2, true, true, -1, false, none, .ratio, none⟩, 1, .frames, 1/10, false, true⟩
 example : rpePlan optsR = .ok [.cropRef none (some 0), .associate (1/100) (1/2), .align .sim3 (-1),
     .metricRpe .ratio 1 .frames (1/10) false true, .reduceToFirstAndPairEnds] := by decide +kernel
+
+/-- a complete run: frames delta 1 on 4 associated poses, ratio relation: the stationary reference pair is skipped -/
+def runRef : Pipeline.Traj := ⟨[0, 1, 2, 3], [q0, q1, q2, q3]⟩
+def runEst : Pipeline.Traj := ⟨[1/100, 101/100, 201/100, 301/100], [p0, p1, p2, p3]⟩
+def runPar : Pipeline.Params := ⟨355/113, ⟨[], #[]⟩, ⟨[], #[]⟩, M3.one, ⟨0, 0, 0⟩, 1, [], [], ⟨[5, 0, 12], [1, 0, 0], #[]⟩⟩
+def runOpts : RpeOpts :=
+  ⟨⟨true, none, none, none, none, 1/50, 0, false, false, -1, false, none, .ratio, none⟩, 1, .frames, 1/10, false, true⟩
+example : Pipeline.rpeRun runOpts runPar runRef runEst
+    = .ok ⟨[.sqrtRatio 25 100, .sqrtRatio 144 144], none, [1, 3], [(0, 1), (2, 3)], [(0, 1), (2, 3)], [101/100, 301/100]⟩ := by
+  decide +kernel
+example : Pipeline.rpeRun { runOpts with delta := 7 } runPar runRef runEst = .error .filter := by decide +kernel
+example : Pipeline.rpeRun { runOpts with delta := 3/2 } runPar runRef runEst = .error .metrics := by decide +kernel
 
 end Evo.C02
